@@ -7,6 +7,8 @@ CONSTANTS
  MaxAfter = 1
  Thin = TRUE
  Stateful = TRUE
+ Forms = {"plain", "access-suffix"}
+ PrefixMatch = FALSE
  Emit = FALSE
 SPECIFICATION Spec
 INVARIANT OnlyDocumented
